@@ -270,6 +270,9 @@ func newWithParams(index, sign int, a uint, k *big.Int, split SquareSplitter, nS
 }
 
 func (statement *Statement) ProofStructure(index int) (*ProofStructure, error) {
+	if statement.Bound == nil {
+		return nil, errors.New("range statement without bound")
+	}
 	return NewProofStructure(index, statement.Sign, statement.Factor, statement.Bound, statement.Splitter)
 }
 
